@@ -424,7 +424,6 @@ def load(R):
                         # what the runner returns is returned, slot by slot
                         "len(result) == len(ghost('rc_result')) and len(result) == len(%s)" % FNS,
                         "forall(int, lambda j: implies(0 <= j and j < len(result), same(result[j], ghost('rc_result')[j])))",
-                        "same(ghost('rc_storage'), storage_backend)",
                         "stack_unchanged(%s)" % FR_],
                raises={"RuntimeError": ["old(truthy(%s)) and %s.recursive_context.prevent_further_calls" % (FR_, TOPF), "ghost('runner_calls') == old(ghost('runner_calls'))"]},
                loops={1: ["len(comp_result) == loop_i",
@@ -465,7 +464,7 @@ def load(R):
                         "forall(int, lambda j: implies(0 <= j and j < len(kwargs_list), same(ghost('rc_fns')[j].fn_reference, fnref_of(self)) and len(ghost('rc_fns')[j].args) == 0 "
                         "and same(ghost('rc_fns')[j].kwargs, kwargs_list[j])))",
                         "ghost('rc_context').local == self.context.local",
-                        "implies(not self.context.local.force_local, same(ghost('rc_runner'), %s.runner))" % CLUSTER, "same(ghost('rc_storage'), %s.storage)" % CLUSTER,
+                        "implies(not self.context.local.force_local, same(ghost('rc_runner'), %s.runner))" % CLUSTER,
                         # the runner's list, slot by slot
                         "len(result) == len(kwargs_list)", "forall(int, lambda j: implies(0 <= j and j < len(result), same(result[j], ghost('rc_result')[j])))",
                         "implies(raise_first_exception, forall(int, lambda j: implies(0 <= j and j < len(result), not isinstance(result[j], Exception))))"],
@@ -480,4 +479,20 @@ def load(R):
                       3: ["forall(int, lambda j: implies(0 <= j and j < loop_i, not isinstance(result[j], Exception)))", "ghost('runner_calls') == old(ghost('runner_calls')) + 1",
                           "len(result) == len(kwargs_list)", "forall(int, lambda j: implies(0 <= j and j < len(result), same(result[j], ghost('rc_result')[j])))"]},
                labels={"comp_types": {2: TObj("nn:FunctionReferenceWithArguments")}},
+               modifies=["ghost:runner_calls", "ghost:rc_runner", "ghost:rc_context", "ghost:rc_fns", "ghost:rc_caller", "ghost:rc_storage", "ghost:rc_result"])
+
+    # ---------------------------------------------------------------- C02 / C15: MementoFunctionBase.call (a batch of size one)
+    # From the property (C02: "same outcome" as the un-memoized function): exactly one reference reaches the runner -- this function, the call's own positional
+    # and keyword arguments, this function's context arguments -- and the single slot of the runner's list is the outcome: returned when it is a value, RAISED
+    # when it is an exception object.
+    R.contract(B_ + "call", prop="C02", types={"self": TObj("nn:MementoFunctionBase"), "args": TObj("nn:tuple"), "kwargs": TObj("nn:dict")}, returns=TObj(), ghost_params=CB_G,
+               requires=["fnref_of(self) is not None"],
+               ensures=["ghost('runner_calls') == old(ghost('runner_calls')) + 1",
+                        "len(ghost('rc_fns')) == 1 and same(ghost('rc_fns')[0].fn_reference, fnref_of(self)) and same(ghost('rc_fns')[0].args, args) and same(ghost('rc_fns')[0].kwargs, kwargs)",
+                        "ghost('rc_context').local == self.context.local",
+                        "implies(not self.context.local.force_local, same(ghost('rc_runner'), %s.runner))" % CLUSTER,
+                        "same(result, ghost('rc_result')[0])", "not isinstance(result, Exception)"],
+               raises={"ValueError": ["%s is None" % CLUSTER, "ghost('runner_calls') == old(ghost('runner_calls'))"],
+                       "RuntimeError": ["ghost('runner_calls') == old(ghost('runner_calls'))"],
+                       "Exception+": ["ghost('runner_calls') == old(ghost('runner_calls')) + 1", "same(exc, ghost('rc_result')[0])", "isinstance(ghost('rc_result')[0], Exception)"]},
                modifies=["ghost:runner_calls", "ghost:rc_runner", "ghost:rc_context", "ghost:rc_fns", "ghost:rc_caller", "ghost:rc_storage", "ghost:rc_result"])
